@@ -3374,6 +3374,13 @@ func (a *Association) createForwardTSN() *chunkForwardTSN {
 			break
 		}
 
+		if c.unordered {
+			// Unordered DATA carries no meaningful SSN (it is not incremented for
+			// U-flagged messages); reporting it would make the receiver skip live
+			// ordered messages. RFC 3758 sec 3.5 C4 lists ordered streams only.
+			continue
+		}
+
 		ssn, ok := streamMap[c.streamIdentifier]
 		if !ok {
 			streamMap[c.streamIdentifier] = c.streamSequenceNumber
